@@ -8,6 +8,7 @@ ns = {"__file__": os.path.join(V, "tools", "mkmanifest.py")}
 exec(src[:src.index("checks = []")], ns)   # definitions only
 CLAIMED, REGISTERED = ns["CLAIMED"], ns["REGISTERED"]
 props = [json.loads(l) for l in open(os.path.join(V, "properties.jsonl"))]
+NCORP = sum(1 for l in open(os.path.join(V, "harness", "cmd", "vcheck", "corpus_patterns.txt")) if l.strip())
 out = []
 w = out.append
 w("## Appendix A — what is built, per property\n")
@@ -25,7 +26,7 @@ w("* the Go harness is one package (`harness/cmd/vcheck`: `gen.go` generators, `
   "* the compiled driver is `lean/Main.lean` (a chain of per-model handlers `Cx/Driver*.lean`), the axiom audit is generated per run by `check` (`.build/Audit_Cnn.lean`) instead of a fixed `Cx/Audit.lean`;\n"
   "* shrinking exists only for end-to-end disagreements (`shrink.go`: haystack chunks, then AST reductions — child for node, dropped alternative/factor, lowered repeat bound, halved literal — then haystack again, 400 evaluations per case, first 25 violations of a run); "
   "the shrunk witness is added to the message and the replay, while the known-finding signature is computed from the case as generated (strategy, primary AST/haystack feature, API family); the component ties use exhaustive short inputs and need none;\n"
-  "* the regression corpus is `harness/cmd/vcheck/corpus_patterns.txt` (1271 patterns harvested from the repository's tests and docs, a generator source) plus the `example` of every ledger entry, replayed at the start of each run;\n"
+  "* the regression corpus is `harness/cmd/vcheck/corpus_patterns.txt` (" + str(NCORP) + " patterns harvested from the repository's tests and docs and from the demonstrations of seeded changes; the end-to-end checks replay it in full, in order, before generating anything; it is also a generator source) plus the `example` of every ledger entry, replayed at the start of each run; each end-to-end check also has a list of probe shapes aimed at its own mechanisms, run first and on haystacks stretched across the internal budgets and windows;\n"
   "* no hook had to be added to `/repo`: every tie uses exported API (`nfa.NFA` accessors, `lazy.DFA`, `onepass`, `literal.Extractor`, `prefilter`, `simd`, `meta.Engine.Strategy()`), so `hooks.source_commits` is empty; the harness is still built with `-tags verif`;\n"
   "* TLA+/Apalache/SPIN/Z3 are not used; `bv_decide` only in `Cx/Proofs/Swar.lean`.\n")
 for p in props:
@@ -33,6 +34,9 @@ for p in props:
     c = CLAIMED[pid]
     pf = os.path.join(V, "lean", "Cx", "Properties", pid + ".lean")
     ths = re.findall(r"^theorem\s+(\S+)", open(pf).read(), flags=re.M) if os.path.exists(pf) else []
+    pfb = os.path.join(V, "lean", "Cx", "Properties", pid + "b.lean")
+    if os.path.exists(pfb):
+        ths += re.findall(r"^theorem\s+(\S+)", open(pfb).read(), flags=re.M)
     w("### %s — %s\n" % (pid, p["title"]))
     w("*Registered in MANIFEST:* %s. *Technique:* %s.\n" % ("yes" if pid in REGISTERED else "no (see not_applicable reason in MANIFEST.json)", c["tech"]))
     w("*Theorems (`Cx/Properties/%s.lean`):* %s.\n" % (pid, ", ".join("`%s`" % t for t in ths) or "—"))
@@ -61,8 +65,12 @@ w("")
 w("## Appendix D — corrections to the machinery\n")
 w(open(os.path.join(V, "docs", "corrections.md")).read())
 w("## Appendix E — seeded changes and the checks that catch them\n")
-w("Each change was produced by a fresh sub-agent that saw only the property's text and its own scratch worktree of `/repo`; it compiles and passes the "
-  "repository's test suite. `tools/seedrun.sh seeded/<id>` applies it to `/repo`, runs the property's check and restores the tree. Nothing here is committed to `/repo`.\n")
+w("Each change `Cnn_a` … `Cnn_d` was produced by a fresh sub-agent that saw only the property's text and its own scratch worktree of `/repo` (two rounds: a/b early, c/d "
+  "after most repairs); it compiles and passes the repository's test suite. The `revert_<commit>` entries are not seeded: each is the reverse of one of the late `fix:` commits "
+  "(a defect the model work or a seeding agent exposed), kept to show that the strengthened check now reports it. `tools/seedrun.sh seeded/<id> [checks]` applies a change to `/repo`, "
+  "runs the property's check (and the checks named in `also_checks` of its meta.json) and restores the tree; `tools/seedall.sh` does it for all of them. Nothing here is committed to `/repo`. "
+  "A change the property's own quick check missed at first led to a stronger check (notes in the last column, corrections in Appendix D); where another property's check is the one that "
+  "reports it, both verdicts are shown.\n")
 w("| change | files | mechanism | failing input | verdict of the property's quick check |")
 w("|---|---|---|---|---|")
 for d in sorted(glob.glob(os.path.join(V, "seeded", "*"))):
